@@ -112,3 +112,11 @@ export function classSetDiff(a, b) {
   const only = (x, y) => [...x.keys()].filter((k) => x.get(k) > (y.get(k) || 0)).map((k) => k.replace("Runtype", "")).sort().join(",");
   return { baseOnly: only(ca, cb), rewrittenOnly: only(cb, ca), text: `base-only{${only(ca, cb)}} rewritten-only{${only(cb, ca)}}` };
 }
+
+// classify why two validators hash differently: "identical" trees, "member-order" only, or different "structure"
+export function classifyDiff(a, b) {
+  if (structKey(a, { sortMembers: false }) === structKey(b, { sortMembers: false })) return { kind: "identical", text: "structurally identical validators" };
+  if (structKey(a, { sortMembers: true }) === structKey(b, { sortMembers: true })) return { kind: "member-order", text: "validators differ only in the order of union/intersection members" };
+  const d = classSetDiff(a, b);
+  return { kind: "structure", text: "different validator structure: " + d.text, diff: d };
+}
